@@ -664,6 +664,23 @@ def cmdScale : P String := do
     return s!"DIFF {prop} {scen}-at-scale-{first} bad={bad} {feats}"
   return s!"OK {feats}"
 
+/-! ## C10: `gone <network> <mode> <k> | <ended> <withError> <released> <servingEnded>` — a streaming handler whose peer disappears -/
+
+def cmdGone : P String := do
+  let network ← tok
+  let mode ← tok
+  let k ← nat
+  expect "|"
+  let ended ← bool; let withErr ← bool; let released ← bool; let servingEnded ← bool
+  let feats := s!"nt=1 net={network} mode={mode} k={k}"
+  -- the assumption of `gone_peer_handler_progress` at the library boundary: a reply to a peer that is gone fails,
+  -- so the handler gets to end; then the accounting of C14 releases the connection and Shutdown ends serving
+  if !ended then return s!"DIFF C10 handler-never-learns-that-the-peer-is-gone {feats}"
+  if !withErr then return s!"DIFF C10 reply-to-a-gone-peer-does-not-fail {feats}"
+  if !released then return s!"DIFF C10 connection-not-released-after-peer-went-away {feats}"
+  if !servingEnded then return s!"DIFF C10 serving-call-after-shutdown-hang {feats}"
+  return s!"OK {feats}"
+
 /-! ## C02 send side under concurrency: `bigframes <conns> <calls> <procs> | <bad> <first>` (oracle evaluated in the harness) -/
 
 def cmdBigFrames : P String := do
@@ -731,6 +748,6 @@ def cmdJsonStruct : P String := do
         return s!"DIFF JSON struct-reply-fields-differ {feats}"
       return s!"OK {feats}"
 
-def table : List (String × P String) := [("act", cmdAct), ("atoi", cmdAtoi), ("addr", cmdAddr), ("reg", cmdReg), ("client", cmdClient), ("e2e", cmdE2e), ("abort", cmdAbort), ("connr", cmdConnR), ("jsonself", cmdJsonSelf), ("upgrade", cmdUpgrade), ("upgradebig", cmdUpgradeBig), ("scale", cmdScale), ("bigframes", cmdBigFrames), ("ctxsplit", cmdCtxSplit), ("jsonstruct", cmdJsonStruct)]
+def table : List (String × P String) := [("act", cmdAct), ("atoi", cmdAtoi), ("addr", cmdAddr), ("reg", cmdReg), ("client", cmdClient), ("e2e", cmdE2e), ("abort", cmdAbort), ("connr", cmdConnR), ("jsonself", cmdJsonSelf), ("upgrade", cmdUpgrade), ("upgradebig", cmdUpgradeBig), ("scale", cmdScale), ("gone", cmdGone), ("bigframes", cmdBigFrames), ("ctxsplit", cmdCtxSplit), ("jsonstruct", cmdJsonStruct)]
 
 end Driver.Misc
